@@ -17,6 +17,9 @@ def main():
         if a.prop in ("C09", "C10", "C11", "C12"):
             from . import atomsops
             rc = atomsops.run(a.prop, a.tier, a.replay)
+        elif a.prop in ("C01", "C02", "C03"):
+            from . import findops
+            rc = findops.run(a.prop, a.tier, a.replay)
         else:
             print("no check registered for %s" % a.prop)
             rc = 2
